@@ -22,6 +22,7 @@ import SA.Proofs.QueueWrap
 import SA.Proofs.DnsWrites
 import SA.Proofs.DnsPoll
 import SA.Model.DnsExchange
+import SA.Proofs.DnsAnswers
 import SA.Gen.PkgVars
 namespace SA.Queue
 
@@ -412,6 +413,112 @@ example : (sendAndReceive Gen.c07TimeoutTest Gen.c07Tries [.ql, .al, .st, .ql, .
 
 end SA.DnsExchange
 
+namespace SA.DnsAnswers
+
+/-! ## Which answer the client takes (late answers, answers to an earlier retransmission, copies, foreign ids)
+
+  Model: SA.Model.DnsAnswers — answers have an identity (the send they answer); the path may deliver the answer to
+  send i in reply to send j > i (`late<j-i>` at i), deliver a second copy (`dup`), rewrite the id (`fid`).
+  `sees filter fs j` is what the communicator hands to `QueryWithData` at send j (`filter` = miekg's UDP client, which
+  skips datagrams with another id), `loopA` the retry loop of `SendAndReceive`, `writeA` a whole `Write`. -/
+
+/-- regenerated fact (`SA.Gen.c07AnswerIdChecks`): nothing in QueryWithData / Query / SendAndReceive looks at which answer
+    the communicator handed up — the returned message goes whole to `DecodeDnsResponseWithParams` and no comparison involves
+    a message id, the ring `dc.chunkId`, a question or a name.  Fails to compile when such a test appears. -/
+theorem C07_answer_ids_unchecked : Gen.c07AnswerIdChecks = [] ∧ ringGen = none := by decide
+
+theorem P.gen_facts (filter : Bool) :
+    (P.gen filter).ring = none ∧ (P.gen filter).test = 1 ∧ (P.gen filter).tries = 5 ∧ (P.gen filter).filter = filter ∧
+    (P.gen filter).countPos = 0 := by
+  cases filter <;> decide
+
+/-- **late_absorbed** (extends `C07_loss_absorbed` to answers with an identity): for the retry loop of `SendAndReceive` with the
+    regenerated facts, from ANY send index `j` of ANY fate script, over either kind of communicator: if the client sees
+    `k ≤ 4` timeouts and then an answer — on time, or `1, 2, 3, …` exchanges late, the answer to ANY earlier send (`o` is
+    arbitrary), a second copy, an answer whose id was rewritten — the loop returns nil after `k+1` sends with that answer
+    accepted.  No answer is turned into an error because of what it answers. -/
+theorem C07_late_absorbed (filter : Bool) (fs : List AFate) (j k : Nat) (o : Option Nat) (hk : k ≤ 4)
+    (hloss : ∀ i, i < k → sees filter fs (j + i) = .tmo) (hans : sees filter fs (j + k) = .ans o) :
+    loopA (P.gen filter) fs Gen.c07Tries j = (j + k + 1, .got o) := by
+  have hf := P.gen_facts filter
+  have h5 : Gen.c07Tries = 5 := by decide
+  rw [h5]
+  exact loopA_absorbs (P.gen filter) hf.1 hf.2.1 fs k 5 j o (by omega) (by simpa [hf.2.2.2.1] using hloss)
+    (by simpa [hf.2.2.2.1] using hans)
+
+/-- a delivered answer always answers a query the server has handled (this send's, or an earlier one's) -/
+theorem C07_answer_means_handled (filter : Bool) (fs : List AFate) (j : Nat) (o : Option Nat)
+    (h : sees filter fs j = .ans o) :
+    ∃ i, i ≤ j ∧ (fateAt fs i).handled = true ∧ (o = some i ∨ (o = none ∧ i = j)) := by
+  cases filter with
+  | true =>
+    have := ans_filtered fs j o h
+    exact ⟨j, Nat.le_refl _, this.2, Or.inl this.1⟩
+  | false =>
+    cases o with
+    | none => exact ⟨j, Nat.le_refl _, ans_foreign_handled fs j h, Or.inr ⟨rfl, rfl⟩⟩
+    | some i =>
+      have := ans_origin_handled fs j i h
+      exact ⟨i, this.1, this.2, Or.inl rfl⟩
+
+theorem chunks_single {mtu : Nat} {d : List Nat} (h0 : d ≠ []) (h : d.length ≤ mtu) : SA.Queue.chunks mtu d = [d] := by
+  unfold SA.Queue.chunks
+  cases hd : d.length with
+  | zero => exact absurd (List.length_eq_zero_iff.mp hd) h0
+  | succ n =>
+    have : ¬ d.length > mtu := by omega
+    simp [SA.Queue.chunksAux, h0, this]
+
+/-- **late_write_absorbed** (extends `C07_write_reports_enqueued`' s accounting to the late fates, for a Write of one fragment):
+    for every fate script in which the fragment's first send is followed, within the five tries, by SOME delivered answer —
+    to that send or to any of its retransmissions, however late, copied or re-labelled — after nothing but timeouts,
+    `Write` returns `(len(b), nil)` after `k+1` sends and the server end holds the fragment: the isolated faults are absorbed
+    and what Write reports is what the peer delivers.  Both for the communicator that hands up whatever arrives and for
+    miekg's UDP client. -/
+theorem C07_late_write_absorbed (filter : Bool) (mtu : Nat) (data : List Nat) (fs : List AFate) (k : Nat) (o : Option Nat)
+    (hd : data ≠ []) (hm : data.length ≤ mtu) (hk : k ≤ 4)
+    (hloss : ∀ i, i < k → sees filter fs i = .tmo) (hans : sees filter fs k = .ans o) :
+    writeA (P.gen filter) mtu data fs = ({ j := k + 1, srv := 1, hist := List.replicate (k + 1) 0 }, data.length, true) := by
+  have hl := C07_late_absorbed filter fs 0 k o hk (by simpa using hloss) (by simpa using hans)
+  have hf := P.gen_facts filter
+  have h5 : Gen.c07Tries = 5 := by decide
+  obtain ⟨i, hi, hh, ho⟩ := C07_answer_means_handled filter fs k o hans
+  have hany : anyHandled fs 0 (k + 1) = true := anyHandled_of fs 0 (k + 1) i (Nat.zero_le _) (by omega) hh
+  have hacks : acks (List.replicate (k + 1) 0) 0 o = true := by
+    rcases ho with ho | ⟨ho, _⟩
+    · subst ho
+      simp [acks, List.getElem?_replicate]
+      omega
+    · subst ho; rfl
+  simp only [Nat.zero_add] at hl
+  rw [h5] at hl
+  simp [writeA, chunks_single hd hm, writeLoopA, chunkAddedA, hf.2.2.1, hl, hany, hacks]
+
+/-- the regenerated loop with iodine's rule above the communicator: the answer's id must be one of the last three query ids -/
+def P.ring3 : P := { P.gen false with ring := some 3 }
+
+/-- kernel-checked counter-example for iodine's id ring of size 3 placed above the communicator (`ring = some 3`; the
+    model's retry loop otherwise as regenerated): the answer to the first send arrives in reply to the fourth (`late3`,
+    the two retransmissions in between unanswered) — the Write fails although the server end holds the fragment
+    (`srv = 1`) and that very answer acknowledges it.  Two exchanges late is still inside the ring; a rewritten id
+    fails at once.  Reproduces on the real code with that check in QueryWithData (`dnsretry a1b2c3 ids mtu=8 late3 ql ql ql`). -/
+theorem C07_witness_id_ring :
+    writeA P.ring3 8 [161, 178, 195] [.late 3, .ql, .ql, .ql] = ({ j := 4, srv := 1, hist := [0, 0, 0, 0] }, 3, false) ∧
+    (writeA P.ring3 8 [161, 178, 195] [.late 2, .ql, .ql]).2.2 = true ∧
+    (writeA P.ring3 8 [161, 178, 195] [.fid]).2.2 = false ∧
+    (writeA (P.gen false) 8 [161, 178, 195] [.late 3, .ql, .ql, .ql]).2.2 = true := by
+  decide
+
+example : sees false [.late 3, .ql, .ql, .ql] 3 = .ans (some 0) := by decide
+example : sees true [.late 3, .ql, .ql, .ql] 3 = .tmo := by decide
+example : writeA (P.gen false) 8 [1, 2, 3] [.late 3, .ql, .ql, .ql] = ({ j := 4, srv := 1, hist := [0, 0, 0, 0] }, 3, true) :=
+  C07_late_write_absorbed false 8 [1, 2, 3] _ 3 (some 0) (by decide) (by decide) (by decide) (by decide) (by decide)
+example : (writeA (P.gen true) 8 [1, 2, 3] [.late 3, .ql, .ql, .ql]).1.j = 5 := by decide
+/-- an answer to a send of an earlier fragment does not acknowledge the current one: it is sent again -/
+example : writeA (P.gen false) 1 [1, 2] [.dup] = ({ j := 3, srv := 2, hist := [0, 1, 1] }, 2, true) := by decide
+
+end SA.DnsAnswers
+
 namespace SA.DnsWrites
 open SA.Queue
 
@@ -609,6 +716,11 @@ end SA.DnsWrites
 #print axioms SA.Queue.C07_witness_int16_window
 #print axioms SA.DnsExchange.C07_loss_absorbed
 #print axioms SA.DnsExchange.C07_witness_loss_not_absorbed
+#print axioms SA.DnsAnswers.C07_answer_ids_unchecked
+#print axioms SA.DnsAnswers.C07_late_absorbed
+#print axioms SA.DnsAnswers.C07_answer_means_handled
+#print axioms SA.DnsAnswers.C07_late_write_absorbed
+#print axioms SA.DnsAnswers.C07_witness_id_ring
 #print axioms SA.DnsWrites.C07_write_reports_enqueued
 #print axioms SA.DnsWrites.C07_reads_prefix_of_reported
 #print axioms SA.DnsWrites.C07_witness_count_after_return
